@@ -125,6 +125,44 @@ func TestC09Options(t *testing.T) {
 	}
 	run.Count("option_lists", int64(idx))
 	run.Exhaustive(run.Thorough())
+	if run.Shard == 0 {
+		lostAck(run)
+	}
+}
+
+// lostAck: a store that writes the record but reports an error (the acknowledgement is lost, e.g. a
+// timeout after the server committed) must still end up with exactly one record per publish.
+func lostAck(run *vk.Run) {
+	for pat := 0; pat < 64; pat++ {
+		mem := ebu.NewMemoryStore()
+		f := stores.NewFaults()
+		fa := map[int]stores.Action{}
+		for i := 0; i < 6; i++ {
+			if pat>>i&1 == 1 {
+				fa[i] = stores.LostAck
+			}
+		}
+		f.ByKind["append"] = fa
+		reported := 0
+		bus := ebu.New(ebu.WithStore(stores.Wrap(mem, f)), ebu.WithPersistenceErrorHandler(func(any, reflect.Type, error) { reported++ }))
+		for i := 1; i <= 6; i++ {
+			ebu.Publish(bus, ev{ID: i, S: "x"})
+		}
+		evs, _, _ := mem.Read(context.Background(), ebu.OffsetOldest, 0)
+		ids := map[int]int{}
+		for _, e := range evs {
+			var d ev
+			json.Unmarshal(e.Data, &d)
+			ids[d.ID]++
+		}
+		for i := 1; i <= 6; i++ {
+			if ids[i] != 1 {
+				run.Violation("record:count-after-lost-ack", fmt.Sprintf("appends whose acknowledgement is lost: pattern %06b; publish #%d has %d records in the store (the bus must not append twice)", pat, i, ids[i]), map[string]any{"lost_ack_pattern": fmt.Sprintf("%06b", pat), "records": len(evs)})
+				break
+			}
+		}
+		run.Case(fmt.Sprintf("lost-ack|%06b", pat), pat != 0)
+	}
 }
 
 func optionCase(run *vk.Run, perm []string, late int) {
